@@ -84,6 +84,10 @@ def ev(x, env):
             return int(a[0] >= a[1])
         if op == ">":
             return int(a[0] > a[1])
+        if op == "wrapping_sub":
+            return (a[0] - a[1]) % 2 ** 64
+        if op == "/":
+            return a[0] // a[1] if a[1] else None
         if op == "+":
             return a[0] + a[1]
         if op == "-":
